@@ -214,6 +214,80 @@ class Check(PropertyCheck):
                 fails.append(Failure("interior text is lost", case))
         return fails
 
+    NEAR = ["|  |\n+--+\n|  |\n+--+\n|  |", "|-|\n|-|", "| |\n+-+\n| |\n+-+", "---", "*->", "ab", "|\n|", "+-\n|", "-+--+-\n |  |\n-+--+-"]
+
+    def neighbour_cases(self, n):
+        """a proper box with a free-standing figure (a ladder, an H, a line, a label …) diagonally next to one of its corners,
+        so that both belong to one group of adjacent cells; the figure comes before or after the box in reading order.
+        Returns (text, (col, row, w, h) of the box, rounded)."""
+        out = []
+        r = self.rng
+        for _ in range(n):
+            w, h = r.range(1, 5), r.range(1, 3)
+            rounded = r.chance(1, 3)
+            corners = r.choice(ROUND) if rounded else SHARP[0]
+            box = make_box(w, h, corners, "-", ["|"] * h).split("\n")
+            fig = r.choice(self.NEAR).split("\n")
+            fw, fh = max(len(x) for x in fig), len(fig)
+            bw, bh = w + 2, h + 2
+            corner = r.below(4)
+            # figure's nearest cell is diagonally adjacent to the chosen corner of the box
+            if corner == 0:      # figure above-left of the box
+                fx, fy, bx, by = 0, 0, fw, fh
+            elif corner == 1:    # above-right
+                bx, by, fx, fy = 0, fh, bw, 0
+            elif corner == 2:    # below-left
+                fx, fy, bx, by = 0, bh, fw, 0
+            else:                # below-right
+                bx, by, fx, fy = 0, 0, bw, bh
+            grid = {}
+            for j, row in enumerate(fig):
+                for i, ch in enumerate(row):
+                    if ch != " ":
+                        grid[(fx + i, fy + j)] = ch
+            # the figure must really touch the corner diagonally: move it so that its cell nearest to the box does
+            near = {0: (fx + fw - 1, fy + fh - 1), 1: (fx, fy + fh - 1), 2: (fx + fw - 1, fy), 3: (fx, fy)}[corner]
+            if near not in grid:
+                continue
+            for j, row in enumerate(box):
+                for i, ch in enumerate(row):
+                    if ch != " ":
+                        grid[(bx + i, by + j)] = ch
+            k, m = r.below(6), r.below(3)
+            H = max(y for (_, y) in grid) + 1
+            rows = []
+            for y in range(H):
+                xs = [x for (x, yy) in grid if yy == y]
+                row = [" "] * (max(xs) + 1 if xs else 0)
+                for (x, yy), ch in grid.items():
+                    if yy == y:
+                        row[x] = ch
+                rows.append("".join(row))
+            out.append((gen.place("\n".join(rows), k, m), (bx + k, by + m, w, h), rounded))
+        return out
+
+    def oracle_neighbours(self, cases):
+        fails = []
+        res = common.run_impl("lib", ["%d settings b=0,s=0,d=0 %s" % (i, hx(c[0])) for i, c in enumerate(cases)])
+        for i, (t, (bx, by, w, h), rounded) in enumerate(cases):
+            self.evaluations += 1
+            case = {"input": t, "input_hex": hx(t), "kind": "neighbour"}
+            r = res[str(i)]
+            if not r.startswith("ok "):
+                fails.append(Failure("conversion did not return", case))
+                continue
+            try:
+                root = svgcanon.parse(unhx(r[3:]))
+            except svgcanon.ParseError:
+                continue
+            rects = [e for _, e in svgcanon.flat_geometry(root) if e.tag == "rect"]
+            want = (F(8 * bx + 4), F(16 * by + 8), F(8 * (w + 1)), F(16 * (h + 1)))
+            got = [(F(e.attrs["x"]), F(e.attrs["y"]), F(e.attrs["width"]), F(e.attrs["height"])) for e in rects]
+            if got != [want]:
+                fails.append(Failure("a box with a free-standing figure diagonally next to it is not emitted as exactly its own rect",
+                                     case, {"got": [[str(v) for v in g] for g in got], "want": [str(v) for v in want]}))
+        return fails
+
     def oracle_sound(self, grids):
         fails = []
         res = common.run_impl("lib", ["%d settings b=0,s=0,d=0 %s" % (i, hx(t)) for i, t in enumerate(grids)])
@@ -257,6 +331,7 @@ class Check(PropertyCheck):
         fails = self.oracle_complete(self.boxes())
         fails += self.oracle_sound(self.random_grids(self.scale(3000, 50000) * boost))
         fails += self.oracle_sound(self.near_boxes(self.scale(1500, 25000) * boost))
+        fails += self.oracle_neighbours(self.neighbour_cases(self.scale(300, 5000) * boost))
         return fails
 
     def oracle_on_texts(self, texts):
